@@ -73,13 +73,14 @@ UNKNOWN = ops.UNKNOWN
 PickModel = ops.PickModel
 
 
-def expected_selection(c, pick=UNKNOWN):
+def expected_selection(c, pick=UNKNOWN, defaults=None):
     """The property's rule, evaluated with the node's own visibility/conditions; `pick` is the model's
-    knowledge of the user's pick (UNKNOWN: take the node's record)."""
+    knowledge of the user's pick (UNKNOWN: take the node's record); `defaults`: the choice's defaults as parsed from
+    Kconfig, used instead of the live list when no stored default selection can legitimately be in force."""
     user = c._user_selection if pick is UNKNOWN else (c.kconfig.syms[pick] if pick else None)
     if user is not None and user.visibility:
         return user
-    for s, cond in c.defaults:
+    for s, cond in (c.defaults if defaults is None else defaults):
         if core.expr_value(cond) and s.visibility:
             return s
     for s in c.syms:
@@ -88,8 +89,9 @@ def expected_selection(c, pick=UNKNOWN):
     return None
 
 
-def monitor(k, ctx, where, model=None):
+def monitor(k, ctx, where, model=None, kconfig_defaults_only=False):
     sel_vec = []
+    boot = simproc.BOOT_CHOICE_DEFAULTS.get(id(k)) if kconfig_defaults_only else None
     with simproc.quiet():
         for ci, c in enumerate(k.unique_choices):
             members = list(dict.fromkeys(c.syms))  # a member re-declared at a second site of the choice is listed twice
@@ -103,7 +105,7 @@ def monitor(k, ctx, where, model=None):
                                 f"{where}: visible choice #{ci} with visible members {[s.name for s in vm]} has y members {[s.name for s in ys]}")
                     continue
                 pick = model.pick.get(ci, UNKNOWN) if model is not None else UNKNOWN
-                exp = expected_selection(c, pick)
+                exp = expected_selection(c, pick, boot[1][ci] if (boot and boot[0] is k and ci < len(boot[1])) else None)
                 if pick is not UNKNOWN:
                     ctx.counters["probe:pick-known-to-model"] += 1
                 if ys[0] is not exp:
@@ -168,11 +170,19 @@ def execute(sc, ctx):
     ctx.counters["probe:sparse-monitor" if sparse else "probe:full-monitor"] += 1
     last = len(sc["ops"]) - 1
 
+    # Can a stored default selection (policy sdkconfig) legitimately be in force?  Not in a fresh node, and not after a
+    # replacing load of a hand-written file (no default markers): "the first default whose condition holds" is Kconfig's then.
+    inj = {"possible": False}
+
     def after(i, op):
         model.apply(op, sc["hand"])
+        if op[0] in ("load", "restart", "load_bad") or (op[0] == "load_hand" and not op[2]):
+            inj["possible"] = True
+        elif op[0] == "load_hand" and op[2] and not any("# default:" in h for h in sc["hand"]):
+            inj["possible"] = False
         if sparse and i != last and (i + 1) % every and (i + 1) not in cps:
             return
-        vecs.append(monitor(node.k, ctx, f"after op {i} {op[:3]}", model))
+        vecs.append(monitor(node.k, ctx, f"after op {i} {op[:3]}", model, kconfig_defaults_only=not inj["possible"]))
         if op[0] == "load_hand":
             ctx.counters["probe:load-handwritten"] += 1
         if (i + 1) in cps:
